@@ -229,27 +229,28 @@ func decideRaces(solver *Solver, threads [][]raceEvent, label string, res *raceR
 	if n == 0 {
 		return
 	}
-	hb := make([][]*Term, n)
-	uniq := fmt.Sprintf("hb%d", res.Queries)
-	for i := range hb {
-		hb[i] = make([]*Term, n)
-		for j := range hb[i] {
-			hb[i][j] = Var(fmt.Sprintf("%s_%s_%d_%d", uniq, sanitize(label), i, j), 0)
-		}
+	// Two threads: a chain of synchronises-with edges can always be shortened to a single edge
+	// (edges follow the observed order, so a later edge's target is program-ordered after an
+	// earlier edge's target), hence  hb(a,b)  <=>  some edge s->t with a <=po s and t <=po b.
+	// Edges are Boolean unknowns asserted true; program order is known; the solver decides.
+	pos := make([]int, n) // position within its thread
+	cnt := map[int]int{}
+	for i := range all {
+		pos[i] = cnt[all[i].thread]
+		cnt[all[i].thread]++
 	}
+	uniq := fmt.Sprintf("sw%d_%s", res.Queries, sanitize(label))
+	type edge struct {
+		s, t int
+		v    *Term
+	}
+	var edges []edge
 	var cs []*Term
-	// program order
-	for i := 0; i < n; i++ {
-		for j := 0; j < n; j++ {
-			if i != j && all[i].thread == all[j].thread && i < j {
-				cs = append(cs, hb[i][j])
-			}
-		}
+	addEdge := func(i, j int) {
+		v := Var(fmt.Sprintf("%s_%d", uniq, len(edges)), 0)
+		edges = append(edges, edge{i, j, v})
+		cs = append(cs, v)
 	}
-	// synchronises-with edges, from the observed order of synchronisation operations:
-	//   once-end  -> later once-skip of another goroutine on the same Once
-	//   atomic store -> the later atomic loads that read it (no other store to the cell in between)
-	//   unlock -> the next lock of the same mutex by another goroutine
 	lastBefore := func(j int, pred func(k int) bool) int {
 		best := -1
 		for k := 0; k < n; k++ {
@@ -264,7 +265,7 @@ func decideRaces(solver *Solver, threads [][]raceEvent, label string, res *raceR
 		case "once-skip":
 			for i := 0; i < n; i++ {
 				if all[i].sync == "once-end" && all[i].thread != all[j].thread && all[i].syncID == all[j].syncID && all[i].ord < all[j].ord {
-					cs = append(cs, hb[i][j])
+					addEdge(i, j)
 				}
 			}
 		case "atomic-load":
@@ -272,43 +273,38 @@ func decideRaces(solver *Solver, threads [][]raceEvent, label string, res *raceR
 				return all[k].sync == "atomic-store" && all[k].obj == all[j].obj && all[k].path == all[j].path
 			})
 			if i >= 0 && all[i].thread != all[j].thread {
-				cs = append(cs, hb[i][j])
+				addEdge(i, j)
 			}
 		case "lock", "rlock":
 			i := lastBefore(j, func(k int) bool {
 				return (all[k].sync == "unlock" || all[k].sync == "runlock") && all[k].syncID == all[j].syncID
 			})
 			if i >= 0 && all[i].thread != all[j].thread {
-				cs = append(cs, hb[i][j])
+				addEdge(i, j)
 			}
 		}
 	}
 	for i := 0; i < n; i++ {
 		switch all[i].sync {
-		case "", "once-enter", "once-skip", "once-begin", "once-end", "atomic-load", "atomic-store", "lock", "unlock", "rlock", "runlock":
+		case "", "once-enter", "once-skip", "once-begin", "once-end", "atomic-load", "atomic-store", "lock", "unlock", "rlock", "runlock", "pool-get", "pool-put":
 		default:
-			// lock/unlock/atomic: not given edges here (sound: fewer edges = more races reported), but flagged
 			res.UnknownSync = append(res.UnknownSync, all[i].sync)
 		}
 	}
-	// transitivity
-	for i := 0; i < n; i++ {
-		for j := 0; j < n; j++ {
-			if i == j {
-				continue
-			}
-			for k := 0; k < n; k++ {
-				if k == i || k == j {
-					continue
-				}
-				cs = append(cs, Implies(And(hb[i][j], hb[j][k]), hb[i][k]))
+	hbTerm := func(a, b int) *Term {
+		var ors []*Term
+		for _, e := range edges {
+			if all[e.s].thread == all[a].thread && all[e.t].thread == all[b].thread && pos[a] <= pos[e.s] && pos[e.t] <= pos[b] {
+				ors = append(ors, e.v)
 			}
 		}
+		return Or(ors...)
 	}
 	// conflicting pairs
 	type pair struct{ i, j int }
 	var conf []pair
 	var ors []*Term
+	var pairTerms [][2]*Term
 	for i := 0; i < n; i++ {
 		for j := i + 1; j < n; j++ {
 			a, b := all[i], all[j]
@@ -316,7 +312,9 @@ func decideRaces(solver *Solver, threads [][]raceEvent, label string, res *raceR
 				continue
 			}
 			conf = append(conf, pair{i, j})
-			ors = append(ors, And(Not(hb[i][j]), Not(hb[j][i])))
+			hab, hba := hbTerm(i, j), hbTerm(j, i)
+			pairTerms = append(pairTerms, [2]*Term{hab, hba})
+			ors = append(ors, And(Not(hab), Not(hba)))
 		}
 	}
 	res.Conflicts += len(conf)
@@ -324,17 +322,21 @@ func decideRaces(solver *Solver, threads [][]raceEvent, label string, res *raceR
 		return
 	}
 	res.Queries++
+	// one Boolean per pair tells whether it is unordered in the model
 	var want []*Term
-	for _, p := range conf {
-		want = append(want, hb[p.i][p.j], hb[p.j][p.i])
+	var extra []*Term
+	for k, pt := range pairTerms {
+		u := Var(fmt.Sprintf("%s_unordered_%d", uniq, k), 0)
+		extra = append(extra, Eq(u, And(Not(pt[0]), Not(pt[1]))))
+		want = append(want, u)
 	}
-	r, vals := solver.Check(append(cs, Or(ors...)), want)
+	r, vals := solver.Check(append(append(cs, extra...), Or(ors...)), want)
 	switch r {
 	case "unsat":
 		res.OrderedBySW += len(conf)
 	case "sat":
 		for k, p := range conf {
-			if vals[2*k].Sign() == 0 && vals[2*k+1].Sign() == 0 {
+			if vals[k].Sign() != 0 {
 				a, b := all[p.i], all[p.j]
 				res.RacePairs++
 				res.Races = append(res.Races, fmt.Sprintf("%s: %s %s%s (thread %d) || %s %s%s (thread %d)", label,
@@ -427,18 +429,12 @@ func c12Post(c *CheckRun) {
 		if inst.Harness != "H_C12_pair" && inst.Harness != "H_C12_sched" {
 			continue
 		}
-		for pi, evs := range inst.Events {
-			var threads [][]raceEvent
-			if inst.Harness == "H_C12_sched" {
-				threads = splitSched(evs)
-			} else {
-				threads = splitThreads(evs)
-			}
+		for pi, threads := range inst.Traces {
 			if len(threads) != 2 {
 				continue
 			}
 			if os.Getenv("VERIF_DEBUG") != "" {
-				fmt.Fprintf(os.Stderr, "c12 %v path %d: raw events %d, thread events %d + %d\n", inst.Args, pi, len(evs), len(threads[0]), len(threads[1]))
+				fmt.Fprintf(os.Stderr, "c12 %v trace %d: thread events %d + %d\n", inst.Args, pi, len(threads[0]), len(threads[1]))
 				for _, t := range threads {
 					for _, e := range t {
 						if e.sync != "" {
